@@ -285,36 +285,47 @@ func exactColoring(c *chk, b *built, chi int, lean bool) (polls int) {
 }
 
 func genUndColor(g *vlib.G) {
-	forUndirected(g, undMax(g), func(key string, s gspec) {
+	forUndirected(g, 6, func(key string, s gspec) {
 		if s.n == 0 {
 			return
 		}
+		plan := undPlan(g, &s)
+		quick6 := s.n == 6 && !g.Thorough()
 		g.Case(key, func(t *vlib.T) {
 			s := s
 			ps := partials(s.n)
 			evals := 0
-			for idk := 0; idk < nIDMaps; idk++ {
-				for v := 0; v < nVariants; v++ {
-					// all partial colourings on the deterministic ascending
-					// variant (n=6: under the identity map only); a rotating
-					// third (n=5) or twelfth (n=6) of them on the other combinations.
-					sub := ps
-					if (s.n == 5 && v != vOrdAsc) || (s.n >= 6 && !(v == vOrdAsc && idk == idIdentity)) {
-						stride := 3
-						if s.n >= 6 {
-							stride = 12
-						}
-						sub = nil
-						for pi := range ps {
-							if pi < 2 || pi%stride == (idk*nVariants+v)%stride || ps[pi].absent {
-								sub = append(sub, ps[pi])
-							}
+			for ci, cb := range plan {
+				// Partial colourings: all of them on the ascending harness
+				// graph for n <= 5 and (thorough) n = 6; elsewhere a rotating
+				// third (n <= 5), sixth (n = 6 thorough) or twelfth (n = 6
+				// quick, ascending graph: sixth) chosen by combination and
+				// edge mask. nil, empty and absent-node always.
+				stride := 1
+				switch {
+				case quick6 && cb.v == vOrdAsc:
+					stride = 6
+				case quick6:
+					stride = 12
+				case cb.v == vOrdAsc:
+					stride = 1
+				case s.n >= 6:
+					stride = 6
+				case s.n == 5:
+					stride = 3
+				}
+				sub := ps
+				if stride > 1 {
+					sub = nil
+					for pi := range ps {
+						if pi < 2 || (pi+ci+int(s.mask))%stride == 0 || ps[pi].absent {
+							sub = append(sub, ps[pi])
 						}
 					}
-					b := build(&s, idk, v)
-					run(t, "und-color", key, idk, v, func(c *chk) { heuristicColorings(c, b, sub, idk+v) })
-					evals += len(sub)
 				}
+				b := build(&s, cb.idk, cb.v)
+				run(t, "und-color", key, cb.idk, cb.v, func(c *chk) { heuristicColorings(c, b, sub, cb.idk+cb.v) })
+				evals += len(sub)
 			}
 			t.Count("partial_colourings", int64(evals))
 			if s.edges() >= 1 {
@@ -327,21 +338,20 @@ func genUndColor(g *vlib.G) {
 }
 
 func genUndColorExact(g *vlib.G) {
-	forUndirected(g, undMax(g), func(key string, s gspec) {
+	forUndirected(g, 6, func(key string, s gspec) {
 		if s.n == 0 {
 			return
 		}
+		plan := undPlan(g, &s)
 		g.Case(key, func(t *vlib.T) {
 			s := s
 			chi := s.chromatic()
 			maxPolls := 0
-			for idk := 0; idk < nIDMaps; idk++ {
-				for v := 0; v < nVariants; v++ {
-					b := build(&s, idk, v)
-					runSticky(t, "und-color-exact", key, idk, v, func(c *chk) {
-						maxPolls = max(maxPolls, exactColoring(c, b, chi, false))
-					})
-				}
+			for _, cb := range plan {
+				b := build(&s, cb.idk, cb.v)
+				runSticky(t, "und-color-exact", key, cb.idk, cb.v, func(c *chk) {
+					maxPolls = max(maxPolls, exactColoring(c, b, chi, false))
+				})
 			}
 			t.Max("dsatur_exact_polls", int64(maxPolls))
 			if maxPolls > 0 {
@@ -351,19 +361,6 @@ func genUndColorExact(g *vlib.G) {
 			t.Detail(s.String())
 		})
 	})
-}
-
-// hard7 is a fixed list of 7-node graphs (edge masks in pairIndex order) on
-// which gonum's DSATUR heuristic was observed to need more colours than the
-// chromatic number for at least one node order, found by enumerating all
-// 2^21 graphs; on these the branch-and-bound of DsaturExact has to improve on
-// its initial upper bound.
-var hard7 = []uint32{
-	0x1b7a1, 0x3af21, 0x3eb03, 0x5555c, 0x5da4c, 0x5f4e4, 0x6cea6, 0x6e5a5, 0x71f51, 0x75aca,
-	0x7da61, 0x9b474, 0x9e6a6, 0xab4f1, 0xae4b6, 0xb2f0c, 0xb561d, 0xbe86c, 0xcb5d4, 0xcda0d,
-	0xd2d56, 0xd555c, 0xe1d9a, 0xe3d89, 0xee865, 0x1197b0, 0x11e173, 0x12a78c, 0x12caf2, 0x1316cc,
-	0x1333c9, 0x136267, 0x1497d4, 0x14c574, 0x1516e3, 0x1545ae, 0x15525e, 0x162953, 0x165655, 0x1896b4,
-	0x18b175, 0x18d139, 0x192d72, 0x196173, 0x1a129b, 0x1a38da, 0x1a50b9, 0x1c1687, 0x1c501f,
 }
 
 // hard8 is a fixed list of 8-node graphs with heuristic colours 5 > chromatic
@@ -379,12 +376,24 @@ var hard8 = []uint32{
 }
 
 // genUndColorHard extends the exact-colouring check to 7 and 8 nodes, where
-// the heuristic upper bound is not always optimal: the hard7 and hard8 lists
-// under all id maps and variants (hard7 is subsumed in thorough), plus every
-// 7-node graph in the thorough tier (ident/asc; sparse/desc and rev/simple as
-// well when the exact search is entered).
+// the heuristic upper bound is not always optimal: the hard7 (1302 graphs)
+// and hard8 (40 graphs) lists under all ID maps and implementations, in both
+// tiers and both configurations.
 func genUndColorHard(g *vlib.G) {
-	one := func(n int, mask uint32, all bool) {
+	one := func(group string, n int, mask uint32, all bool) { hardCase(g, group, n, mask, all) }
+	for _, m := range hard8 {
+		one("und-color-hard", 8, m, true)
+	}
+	for _, m := range hard7 {
+		one("und-color-hard", 7, m, true)
+	}
+}
+
+// hardCase is one graph of the hard lists (all: every ID map and
+// implementation) or of the 7-node sweep.
+func hardCase(g *vlib.G, group string, n int, mask uint32, all bool) {
+	lean := !all && !g.Thorough()
+	{
 		s := undirectedSpec(n, mask)
 		key := fmt.Sprintf("n=%d edges=%#x", n, mask)
 		g.Case(key, func(t *vlib.T) {
@@ -394,8 +403,8 @@ func genUndColorHard(g *vlib.G) {
 			for idk := 0; idk < nIDMaps; idk++ {
 				for v := 0; v < nVariants; v++ {
 					if !all {
-						// thorough sweep: ident/asc always; two more combinations
-						// only for graphs on which the exact search is entered.
+						// sweep: ident/asc always; two more combinations only
+						// for graphs on which the exact search is entered.
 						first := idk == idIdentity && v == vOrdAsc
 						more := (idk == idSparse && v == vOrdDesc) || (idk == idReversed && v == vSimple)
 						if !first && !(more && maxPolls > 0) {
@@ -403,13 +412,13 @@ func genUndColorHard(g *vlib.G) {
 						}
 					}
 					b := build(&s, idk, v)
-					runSticky(t, "und-color-hard", key, idk, v, func(c *chk) {
+					runSticky(t, group, key, idk, v, func(c *chk) {
 						if all && (v == vOrdAsc || v == vOrdDesc) {
 							if k, _, _ := coloring.Dsatur(b.g.(graph.Undirected), nil); k > chi {
 								improved = true
 							}
 						}
-						maxPolls = max(maxPolls, exactColoring(c, b, chi, !all))
+						maxPolls = max(maxPolls, exactColoring(c, b, chi, lean))
 						if lastCancelSuboptimal {
 							cancelledWithBest = true
 						}
@@ -430,20 +439,21 @@ func genUndColorHard(g *vlib.G) {
 			t.Detail(s.String())
 		})
 	}
-	for _, m := range hard8 {
-		one(8, m, true)
-	}
-	if !g.Thorough() || vlib.Env("VERIF_CONFIG", "default") != "default" {
-		// quick tier, and the tomita configuration in both tiers: the fixed lists only.
-		for _, m := range hard7 {
-			one(7, m, true)
-		}
+}
+
+// genUndColorSweep7 runs the exact-colouring check over the 7-node graphs in
+// scrambled order: a fixed 1/32 in the quick tier (ident/asc, plus sparse/desc
+// and rev/simple when the exact search is entered; without the nil-terminator
+// call), all 2^21 in the thorough tier. Default configuration only.
+func genUndColorSweep7(g *vlib.G) {
+	if vlib.Env("VERIF_CONFIG", "default") != "default" {
 		return
 	}
-	for k := uint32(0); k < 1<<21; k++ {
+	n := vlib.Pick(g, uint32(1)<<16, uint32(1)<<21)
+	for k := uint32(0); k < n; k++ {
 		if g.Stopped() {
 			return
 		}
-		one(7, scramble(k, 21), false)
+		hardCase(g, "und-color-sweep7", 7, scramble(k, 21), false)
 	}
 }
